@@ -200,6 +200,38 @@ def run_shard(spec, ctx):
                 p = r.choice(s)
                 R.expect("find(%s, %s)" % (S, src(p)), rs.find(s, p), "find:list:hit", ("find", S, src(p)))
                 R.expect("find_last(%s, %s)" % (S, src(p)), rs.find_last(s, p), "find_last:list:random", ("findl", S, src(p)))
+            # what indexing, slicing and substr return are new values: editing them in place changes neither the
+            # sequence nor what the same expression returns next time
+            if k == "str":
+                i = r.randrange(n)
+                a, b = sorted([r.randrange(n), r.randrange(n)])
+                b += 1
+                R.expect("def s = %s; def c = s[%d]; c[0] = 'Q'; def t = s[%d to %d]; t[0] = 'QQ'; def u = substr(s, %d, %d); u[0] = ''; "
+                         "[s, s[%d], %s[%d], s[%d to %d], substr(s, %d, %d)]" % (S, i, a, b, a, b, i, S, i, a, b, a, b),
+                         [s, s[i], s[i], s[a:b], s[a:b]], "result-edited-in-place:str", ("resedit", S, i, a, b))
+            else:
+                a, b = sorted([r.randrange(n), r.randrange(n)])
+                b += 1
+                R.expect("def s = %s; def t = s[%d to %d]; t[0] = 'Q'; append(t, 'R'); def u = sublist(s, %d, %d); delete_at(u, 0); "
+                         "[s, s[%d to %d], sublist(s, %d, %d)]" % (S, a, b, a, b, a, b, a, b),
+                         [s, s[a:b], s[a:b]], "result-edited-in-place:list", ("resedit", S, a, b))
+            # the sequence itself reached by in-place edits after it was indexed, sliced and searched
+            from cklgen import history
+            av = ("str", s) if k == "str" else ("list", tuple(("int", x) if isinstance(x, int) else ("str", x) for x in s))
+            st, tg = history.build(r, av, "hs", extra_primers=("hs[0]", "hs[1 to 3]", "find(hs, 'a')", "find_last(hs, 'a')", "hs[-1]"), allow_alias=False)
+            pre = "; ".join(st) + "; "
+            for tg_ in tg:
+                ctx.count("edit:" + tg_)
+            for i in big[:2] + [r.randrange(n), -r.randint(1, n)]:
+                R.expect(pre + "hs[%d]" % i, rs.deref(s, i), "after-edits:deref:%s:%s" % (k, cls(i, n)), ("h-deref", S, i))
+                j = r.choice(big + [r.randrange(n + 1)])
+                R.expect(pre + "hs[%d to %d]" % (i, j), rs.slice_(s, i, j), "after-edits:slice:%s" % k, ("h-sl", S, i, j))
+                fn = "substr" if k == "str" else "sublist"
+                R.expect(pre + "%s(hs, %d, %d)" % (fn, i, j), rs.slice_(s, i, j), "after-edits:%s" % fn, ("h-" + fn, S, i, j))
+            p = (s[r.randint(0, n - 1):][:r.randint(1, 3)]) if k == "str" else r.choice(s)
+            R.expect(pre + "[find(hs, %s), find_last(hs, %s), length(hs)]" % (src(p), src(p)), [rs.find(s, p), rs.find_last(s, p), n],
+                     "after-edits:find:%s" % k, ("h-find", S, src(p)))
+            ctx.count("edited_sequences")
         ctx.count("random_sequences", spec["n"])
 
 
